@@ -62,6 +62,8 @@ def _chains(chk):
             stub = real_self(S, _point="POINT", _mix_pairs=(1, 2), pipeline=pipe, hamsys=_Obj(clmo="CLMO", clmo_H="CLMO"),
                         _local2synodic=lambda p, c, tol: log.append(("_local2synodic", (p, c), {})) or "SYN",
                         _synodic2local=lambda p, s, tol: log.append(("_synodic2local", (p, tuple(s)), {})) or ("out:_synodic2local", 0))
+            import hiten.algorithms.types.services.base as _sbase
+            _sbase._DynamicsServiceBase.__init__(stub, "CM")        # a real (empty) cache, should the method memoise
             stub._restrict_to_center_manifold = lambda c: log.append(("_restrict", (c,), {})) or _np.array([10, 11, 12, 13, 14, 15.0])
             if direction == "fwd":
                 out = S._cm_point_to_synodic_4d(stub, _np.array([1.0, 2.0, 3.0, 4.0]), 1e-14)
